@@ -187,6 +187,7 @@ type Cluster struct {
 	byzHandler      func(s *Step)
 	byzGen          func(g *genState) *Step
 	observer        *SimNode
+	instSeq         int
 	emitted         map[string]string
 	emitScanned     int
 	frameHashes     map[int]frameRef
